@@ -507,11 +507,16 @@ class DefTag(Tag):
 
     def undeclared_identifiers(self):
         res = []
-        for c in self.function_decl.defaults:
+        for c in self.function_decl.defaults + [
+            c for c in self.function_decl.kwdefaults if c is not None
+        ]:
+            code = ast.PythonCode(c, **self.exception_kwargs)
+            # names the default binds itself (comprehension variables)
+            # are not read from outside
             res += list(
-                ast.PythonCode(
-                    c, **self.exception_kwargs
-                ).undeclared_identifiers
+                code.undeclared_identifiers.difference(
+                    code.declared_identifiers
+                )
             )
         return (
             set(res)
